@@ -219,10 +219,10 @@ def render_program(stmts, names, layout='canon', seed=0, order=None):
         text = render_statement(stmts[i], names, layout, rng)
         if layout == 'comments':
             if n == 0:
-                lines.append('# leading comment = with (an) equals sign')
+                lines.append('# 1) leading comment = with an equals sign and an unmatched bracket')
                 lines.append('')
             first, *rest = text.split('\n')
-            text = '\n'.join([first + '  # trailing comment: ' + names[0] + ' = 1'] + rest)
+            text = '\n'.join([first + '  # (trailing comment: ' + names[0] + ' = 1'] + rest)
             lines.append(text)
             lines.append('')
             lines.append('   ')
